@@ -1056,7 +1056,6 @@ func init() {
 		Assumptions: []string{"key alphabets are small (see rule); resource vectors use one type for the fair-share keys", "map iteration order = creation order (toolchain overlay), so creation order enumerates every presentation order"}})
 }
 
-
 // ---------------------------------------------------------------- node sorting policy changed by a reload
 
 // policyWorld: two nodes with memory, vcore and gpu; allocations that use memory only or gpu only (so the resource types
